@@ -16,6 +16,7 @@ func init() {
 		ID:    "shift/unsigned-count",
 		Text:  "in the shift implementations of package value (functions whose name contains `Bitshift` and the helpers of the package they call with the shift count), a 64-bit unsigned shift count is never converted to a signed integer type unless a comparison of that count with a constant dominates the conversion: a count of 2^63 or more would wrap to a negative number and reverse the direction of the shift instead of shifting every bit out",
 		Floor: 8,
+		Arch:  true,
 		Run:   runShiftUnsignedCount,
 	})
 	register(&Rule{
